@@ -1,0 +1,19 @@
+//go:build verif
+// +build verif
+
+package storage
+
+import "github.com/janelia-flyem/dvid/dvid"
+
+// Verification hooks (build tag "verif" only): export unexported pure key builders so an external
+// harness can call them on synthetic ids.  No behaviour change; not compiled without the tag.
+
+// VerifConstructDataKey exposes constructDataKey.
+func VerifConstructDataKey(i dvid.InstanceID, v dvid.VersionID, c dvid.ClientID, tk TKey) Key {
+	return constructDataKey(i, v, c, tk)
+}
+
+// VerifDataContext builds a DataContext with an explicit client id.
+func VerifDataContext(data dvid.Data, v dvid.VersionID, c dvid.ClientID) *DataContext {
+	return &DataContext{data, v, c, ""}
+}
